@@ -9,9 +9,9 @@ use crate::network::{TransportConnect, TransportListen};
 use mio::event::{Source};
 use mio::net::{TcpStream, TcpListener};
 
-use tungstenite::protocol::{WebSocket, Message};
-use tungstenite::{accept as ws_accept};
-use tungstenite::client::{client as ws_connect};
+use tungstenite::protocol::{WebSocket, WebSocketConfig, Message};
+use tungstenite::{accept_with_config as ws_accept};
+use tungstenite::client::{client_with_config as ws_connect};
 use tungstenite::handshake::{
     HandshakeError, MidHandshake,
     server::{ServerHandshake, NoCallback},
@@ -29,6 +29,14 @@ use std::ops::{DerefMut};
 /// Max message size for default config
 // From https://docs.rs/tungstenite/0.13.0/src/tungstenite/protocol/mod.rs.html#65
 pub const MAX_PAYLOAD_LEN: usize = 32 << 20;
+
+// The websocket library limits by default the size of a frame below [`MAX_PAYLOAD_LEN`].
+// Both sides of a connection must accept the messages this adapter declares as valid.
+fn ws_config() -> WebSocketConfig {
+    WebSocketConfig::default()
+        .max_message_size(Some(MAX_PAYLOAD_LEN))
+        .max_frame_size(Some(MAX_PAYLOAD_LEN))
+}
 
 pub(crate) struct WsAdapter;
 impl Adapter for WsAdapter {
@@ -152,6 +160,11 @@ impl Remote for RemoteResource {
         let deref_state = state.deref_mut();
         match deref_state {
             RemoteState::WebSocket(web_socket) => {
+                if data.len() > MAX_PAYLOAD_LEN {
+                    // The peer would drop the connection if it receives it.
+                    return SendStatus::MaxPacketSizeExceeded;
+                }
+
                 let message = Message::Binary(data.to_vec().into());
 
                 let mut result = web_socket.send(message);
@@ -188,7 +201,7 @@ impl Remote for RemoteResource {
                         return tcp_status;
                     }
                     let stream_backup = stream.clone();
-                    match ws_connect(url, stream) {
+                    match ws_connect(url, stream, Some(ws_config())) {
                         Ok((web_socket, _)) => {
                             *state = RemoteState::WebSocket(web_socket);
                             PendingStatus::Ready
@@ -210,7 +223,7 @@ impl Remote for RemoteResource {
                 }
                 PendingHandshake::Accept(stream) => {
                     let stream_backup = stream.clone();
-                    match ws_accept(stream) {
+                    match ws_accept(stream, Some(ws_config())) {
                         Ok(web_socket) => {
                             *state = RemoteState::WebSocket(web_socket);
                             PendingStatus::Ready
